@@ -1680,9 +1680,14 @@ def section_cli(chk, r, binary, rig, n, distinct):
                 return False
             dest = os.path.join(d, "x")
             os.mkdir(dest)
-            pl = subprocess.run([rig.nextest, "nextest", "list", "--archive-file", arch, "--extract-to", dest,
-                                 "--message-format", "json", "--config-file", cfg], cwd=e2e.PUPPET, env=env,
+            # every other case names the extraction directory by a RELATIVE path (from another working
+            # directory): everything nextest reports afterwards is still remapped into the real directory
+            rel_dest = ci % 2 == 1
+            pl = subprocess.run([rig.nextest, "nextest", "list", "--archive-file", arch, "--extract-to",
+                                 "x" if rel_dest else dest, "--message-format", "json", "--config-file", cfg],
+                                cwd=d if rel_dest else e2e.PUPPET, env=env,
                                 capture_output=True, text=True, timeout=300)
+            chk.count("cli_roundtrip_relative_extract_to" if rel_dest else "cli_roundtrip_absolute_extract_to")
             pd = subprocess.run([rig.nextest, "nextest", "list", "--manifest-path", manifest, "--message-format",
                                  "json", "--config-file", cfg], cwd=e2e.PUPPET, env=env, capture_output=True,
                                 text=True, timeout=600)
@@ -1696,6 +1701,18 @@ def section_cli(chk, r, binary, rig, n, distinct):
                     why = f"target directory after extraction is {ta}"
                 elif la != ld:
                     why = f"listing from the archive differs from the direct listing: {la} vs {ld}"
+                else:
+                    # the remapped library directories (dynamic libstd of proc-macro / prefer-dynamic tests is
+                    # loaded from there) are absolute paths inside the extraction directory
+                    plats = json.loads(pl.stdout)["rust-build-meta"].get("platforms", {})
+                    for side in ("host",):
+                        ldir = (plats.get(side) or {}).get("libdir") or {}
+                        if ldir.get("status") == "available":
+                            want = os.path.join(os.path.realpath(dest), "target", "nextest", "libdirs", side)
+                            chk.count("cli_roundtrip_libdir_checked")
+                            if ldir.get("path") != want:
+                                why = (f"{side} libdir after extraction is {ldir.get('path')!r}, expected the extracted copy "
+                                       f"{want!r} (--extract-to given as {'a relative' if rel_dest else 'an absolute'} path)")
             lt = harness(binary, [dict(op="list_tar", archive=arch)])[0]
             im, dups = tar_entries_to_map(lt.get("entries", []))
             exp_err, exp = oracle_expected_files(case, stdlibs)
